@@ -719,7 +719,10 @@ func (rc *runCtx) verdict(results []batchResult) int {
 			}
 		}
 		// a test that failed without recording a violation is a harness problem
-		if r.exitErr != nil && len(rep.Violations) == 0 {
+		// (where the race gate is auxiliary, the testing package still fails a test during which the
+		// detector reported something; those reports are listed in the evidence, not judged)
+		onlyRace := !prop.RaceDeciding && len(r.races) > 0 && strings.Contains(r.stdout, "race detected during execution of test") && strings.Count(r.stdout, "--- FAIL") == 1
+		if r.exitErr != nil && len(rep.Violations) == 0 && !onlyRace {
 			tail := r.stdout
 			if len(tail) > 3000 {
 				tail = tail[len(tail)-3000:]
